@@ -55,6 +55,27 @@ def check_propagate(ctx, R, modules=ANCHOR_MODULES_C03, note_modules=('streamz.r
         if not sites:
             continue
         cls = fn.cls
+        if cls is None and fn.parent is None:
+            # a module-level helper that emits for the node it is handed (`_emit_and_track(node, x, m)`): analysed on a clone in
+            # which that parameter is called `self`, as a method of Stream - so that what it stores into the node's fields and
+            # hands back is seen for what it is
+            recv = {s_.func.value.id for s_ in sites if isinstance(s_.func.value, ast.Name)}
+            nodep = [p_ for p_ in fn.params() if p_ in recv]
+            if len(nodep) == 1 and 'self' not in fn.params():
+                import copy as _copy
+                pname = nodep[0]
+
+                class _Ren(ast.NodeTransformer):
+                    def visit_Name(self_, n_):
+                        return ast.copy_location(ast.Name(id='self', ctx=n_.ctx), n_) if n_.id == pname else n_
+
+                    def visit_arg(self_, n_):
+                        return ast.copy_location(ast.arg(arg='self', annotation=n_.annotation), n_) if n_.arg == pname else n_
+                from ..model import Func as _Func
+                node2 = _Ren().visit(_copy.deepcopy(fn.node))
+                fn = _Func(fn.module, fn.qual, node2, cls=M.stream, parent=None)
+                cls = M.stream
+                sites = emit_sites(fn)
         # a method of a private base class is analysed as a method of each concrete subclass (where its hooks resolve)
         contexts = [cls]
         if cls is not None and cls in getattr(M, 'private_bases', ()) and fn.owner is cls:
